@@ -91,7 +91,7 @@ CHECKS = {
             "§5 C17"),
     "C18": ("vf-nexus", "exploration",
             "record-live / replay-AS-OF metamorphic battery over generated committed histories (proptest), version-log append-only / payload-immutability check, purge-difference check",
-            "Quick: 80 histories of 6-16 committed statements (25 statement families incl. two schema activations); a 57-read battery (25 pattern families incl. BELIEF, paths, aggregates, schema-dependent reads) is recorded after every write and replayed AS OF SEQ after every later write and AS OF TX / TIME / snapshot token at the end (about 380k replays, about 36 % differing from the present); 400 payload histories (no version row rewritten or lost without PURGE, assertion / evidence payloads immutable); 120 purge cases (only the purged rows differ); 12 regression inputs. Thorough: 1 600 / 120 / 8 000 / 2 400 (8 M replays).",
+            "Quick: 80 histories of 6-16 committed statements (25 statement families incl. two schema activations); a 57-read battery (25 pattern families incl. BELIEF, paths, aggregates, schema-dependent reads) is recorded after every write and replayed AS OF SEQ after every later write and AS OF TX / TIME / snapshot token at the end (about 380k replays, about 36 % differing from the present); 6 long histories (bulk load of 900-2070 elements of one kind - more than the 1000 rows an unbounded collection scan returns by default - plus sweeping updates, every coordinate replayed twice); 400 payload histories (no version row rewritten or lost without PURGE, assertion / evidence payloads immutable); 120 purge cases (only the purged rows differ); 12 regression inputs. Thorough: 1 600 / 120 / 8 000 / 2 400 (8 M replays).",
             "Every replay must equal its live recording in full (rows, order, field values incl. _system, beliefs, schema_environment_version); only the read's own coordinates are removed; ledger id lists inside a projected belief are compared as sets (the engine lists them in numeric id order live and in lexicographic order historically - recorded as an observation, not a violation, because the property speaks of what was current, not of list order inside an explanation). SEARCH .. AS OF and nested tuples are refused by the engine and not covered; PURGE only of unreferenced elements. One genuine defect found and repaired (explicit state matcher on historical reads).",
             "§5 C18"),
     "C19": ("vf-nexus", "exploration",
